@@ -7,6 +7,7 @@ package verifsim
 
 import (
 	"encoding/binary"
+	"encoding/json"
 	"fmt"
 	"hash/fnv"
 	"io"
@@ -79,7 +80,9 @@ type RunResult struct {
 	Fired       map[string]int `json:"fired"`
 	Probes      map[string]int `json:"probes"`
 	NonTrivial  bool           `json:"nontrivial"`
-	StateHashes []uint64       `json:"-"`
+	ActionsHash string         `json:"actions_hash"`
+	States      []string       `json:"states,omitempty"`
+	Sample      *Sample        `json:"sample,omitempty"`
 	Trace       []string       `json:"trace,omitempty"`
 }
 
@@ -124,6 +127,9 @@ type Sim struct {
 	dgs   map[int]*Dgram // datagrams by creating action index
 	ansQ  []*UpReq       // UPF-initiated requests not yet answered by an SMF
 	actNo int
+
+	statesSeen map[string]bool
+	faultHit   map[uint64]bool
 }
 
 func (s *Sim) since() time.Duration { return time.Since(s.t0) }
@@ -535,6 +541,10 @@ func stuckSignature(dump string) string {
 // Run executes one simulated run inside a fresh bubble.
 func Run(t *testing.T, cfg RunConfig, actions []Action, verbose bool) *RunResult {
 	res := &RunResult{Config: cfg, Fired: map[string]int{}, Probes: map[string]int{}}
+	if verbose {
+		cb, _ := json.Marshal(cfg)
+		fmt.Printf("CFG %s\n", cb)
+	}
 	func() {
 		defer func() {
 			if p := recover(); p != nil {
@@ -561,6 +571,7 @@ func Run(t *testing.T, cfg RunConfig, actions []Action, verbose bool) *RunResult
 			s.model = newModel(s)
 			s.gen = newGen(s)
 			s.runBody(actions)
+			res.NonTrivial = s.nontrivial()
 			res.EventHash = fmt.Sprintf("%016x", s.evHash)
 			res.Steps = s.stepNo
 			res.SimTimeMs = s.since().Milliseconds()
